@@ -340,7 +340,7 @@ func conc(args []string) {
 	_ = fs.String("out", "", "")
 	stats := fs.String("stats", "stats.json", "")
 	_ = fs.Parse(args)
-	r := vx.NewRng(*seed)
+	r := vx.NewRng(mixSeed(*seed))
 	st := vx.NewStats("concurrent runs on one shared ds.Set[int]: (a) scripted arrivals: method Y arrives while gated method X holds its locks and is about to iterate its argument, for every (X,Y); (b) free-running loops for every unordered pair of the 21 methods on 2..4 goroutines; (c) Add/Delete/Has histories on 2..4 goroutines checked for linearizability (Wing-Gong search); (d) pair-atomicity of Apply/Compute/Replace next to RLock-side writers; every run under a watchdog; distinct = distinct (mode, methods, goroutines); non-trivial = at least two goroutines touching the shared set")
 	const watchdog = 6 * time.Second
 	settle := 15 * time.Millisecond
